@@ -44,6 +44,32 @@ def run(ctx):
     ctx.sample({"blackbox_walk": walks[0][:24]})
     ctx.exec_validate(bexe, walks, lambda x: x, "BbFileTrace.tla", c15.trace_cfg(ctx, "BbFileTrace_c11.cfg", c15.skipped_ids()),
                       label="c11-bb", nshards=4, timeout=1800)
+    # (3b) the same with the blackbox configured differently: (i) it takes every message (filter "*" at LOG_TRACE, as
+    #      daemons configure it), so the library's own trace messages land in it too -- a dump must still hold an unbroken
+    #      run of the application's newest records ending with the very last one (DumpAll); (ii) a maximum line length
+    #      above the default 512 with messages to match (dumps only: the printer stops at 512 characters by design)
+    walks2 = []
+    for size in ([1024, 6000] if q else [1024, 4083, 6000, 20000]):
+        for _ in range(2 if q else 8):
+            w = ["InitAll %d" % size]
+            for i in range(90 if q else 250):
+                w.append("Log %d %d %d %d %d" % (rng.randint(0, 7), rng.randint(0, 2), i + 1, rng.choice([0, 1, 1, 3]), rng.choice([0, 1, 3, 200, 440])))
+                if rng.random() < 0.5:
+                    w.append("DumpAll")
+            walks2.append(w)
+    for size, ml in ([(9000, 1500), (4083, 900)] if q else [(9000, 1500), (4083, 900), (20000, 3000), (1024, 700)]):
+        for _ in range(2 if q else 6):
+            w = ["Init %d %d" % (size, ml)]
+            for i in range(80 if q else 250):
+                w.append("Log %d %d %d %d %d" % (rng.randint(0, 7), rng.randint(0, 2), i + 1, rng.choice([1, 3]),
+                                                 rng.choice([0, 3, 300, 520, 600, ml - 120, ml - 60])))
+                if rng.random() < 0.5:
+                    w.append(rng.choice(["Dump", "DumpAll"]))
+            walks2.append(w)
+    ctx.exec_validate(bexe, walks2, lambda x: x, "BbFileTrace.tla",
+                      ctx.cfg("BbFileTrace_c11b.cfg", 'CONSTANTS KFSkip = {}  MaxFoot = 6400\nSPECIFICATION TraceSpec\nINVARIANT TypeOK\nINVARIANT DumpIsSnapshot\n'
+                              'POSTCONDITION TraceAccepted\nCHECK_DEADLOCK FALSE\n'),
+                      label="c11-bb2", nshards=4, timeout=1800)
     ctx.cov["exhaustive"] = True
     ctx.assumptions += [
         "one caller (sequential)",
